@@ -20,6 +20,18 @@ pub struct SCase {
 // ---------------------------------------------------------------------------------------------
 // printer
 
+thread_local! {
+    /// printer mode: write list tails as nested list literals (`[a | [b | c]]` for `[a, b | c]`)
+    static NESTED_TAILS: std::cell::Cell<bool> = std::cell::Cell::new(false);
+}
+
+pub fn with_nested_tails<R>(on: bool, f: impl FnOnce() -> R) -> R {
+    let prev = NESTED_TAILS.with(|n| n.replace(on));
+    let r = f();
+    NESTED_TAILS.with(|n| n.set(prev));
+    r
+}
+
 fn lit_ok(t: &T) -> bool {
     !matches!(t, T::I(n) if *n < 0)
 }
@@ -38,6 +50,10 @@ pub fn term(t: &T, top: bool) -> String {
         T::C(c) => format!("{:?}", c),
         T::S(s) => format!("{:?}", s),
         T::Nil => "[]".into(),
+        T::Cons(h, tl) if NESTED_TAILS.with(|n| n.get()) && matches!(**tl, T::Cons(_, _)) => {
+            // the same term written with a list literal in tail position: [h | [..]]
+            format!("[{} | {}]", term(h, false), term(tl, false))
+        }
         T::Cons(_, _) => {
             let (items, tail) = t.list_parts();
             let mut s = String::from("[");
@@ -263,6 +279,27 @@ pub fn c13_cases(quick: bool) -> Vec<SCase> {
                 let mut body = setup.clone();
                 body.push(G::Match(kind, subj.clone(), vec![(vec![p.clone()], b.clone())]));
                 out.push(SCase { program: Program { nq: 2, body }, as_query: count % 7 == 0, take: 50, ordered: false, twin_of: None });
+            }
+        }
+    }
+    // alternatives of one arm that bind different sets of names, with a body that uses a name
+    // bound by only some of them: where an alternative does not bind the name, the name denotes
+    // the outer variable (here the query variable x itself, observable through y == [x])
+    {
+        let alt_sets: Vec<Vec<T>> = vec![
+            vec![T::cons(q(), T::W), T::Nil],
+            vec![T::Nil, T::cons(q(), T::W)],
+            vec![T::list(vec![q(), T::W]), T::list(vec![q()]), T::Nil],
+            vec![T::I(1), T::list(vec![q()])],
+            vec![T::list(vec![T::W, q()]), T::list(vec![T::W])],
+        ];
+        let subj_terms: Vec<T> = vec![T::Nil, T::list(vec![T::I(7)]), T::list(vec![T::I(7), T::I(8)]), T::I(1)];
+        for alts in &alt_sets {
+            for st in &subj_terms {
+                for kind in kinds {
+                    let m = G::Match(kind, st.clone(), vec![(alts.clone(), vec![G::Eq(r(), T::list(vec![q()]))]), (vec![T::W], vec![G::Eq(r(), T::I(0))])]);
+                    out.push(SCase { program: Program { nq: 2, body: vec![m] }, as_query: false, take: 50, ordered: false, twin_of: None });
+                }
             }
         }
     }
@@ -572,6 +609,8 @@ pub fn generate(id: &str, quick: bool, dir: &str) -> std::io::Result<usize> {
             let c = &cs[i];
             let start = line;
             let mut f = String::new();
+            let nested = i % 3 == 1;
+            let prev = NESTED_TAILS.with(|n| n.replace(nested));
             let names: Vec<String> = (0..c.program.nq).map(var_name).collect();
             if c.as_query {
                 writeln!(f, "pub fn case_{}(max: usize) -> Vec<Vec<LResult<DU, DE>>> {{", i).unwrap();
@@ -589,6 +628,7 @@ pub fn generate(id: &str, quick: bool, dir: &str) -> std::io::Result<usize> {
                 writeln!(f, "    run_goal(qvars, goal, max)").unwrap();
                 writeln!(f, "}}").unwrap();
             }
+            NESTED_TAILS.with(|n| n.set(prev));
             f.push('\n');
             line += f.lines().count();
             writeln!(index, "{}\t{}\t{}\t{}", m, start, line - 1, i).unwrap();
@@ -615,6 +655,8 @@ pub fn generate(id: &str, quick: bool, dir: &str) -> std::io::Result<usize> {
         writeln!(modrs, "\n#[allow(unused)]\nfn lterms_{}(x: &super::prelude::LTerm<super::prelude::DU, super::prelude::DE>, y: &super::prelude::LTerm<super::prelude::DU, super::prelude::DE>, out: &mut Vec<super::prelude::LTerm<super::prelude::DU, super::prelude::DE>>) {{\n    use super::prelude::*;\n    let (x, y) = (x.clone(), y.clone());", ci).unwrap();
         for t in chunk {
             writeln!(modrs, "    let t: LTerm<DU, DE> = lterm!({});\n    out.push(t);", term(t, false)).unwrap();
+            let nested = with_nested_tails(true, || term(t, false));
+            writeln!(modrs, "    let t: LTerm<DU, DE> = lterm!({});\n    out.push(t);", nested).unwrap();
         }
         modrs.push_str("}\n");
         chunk_fns.push(ci);
